@@ -327,6 +327,14 @@ def run(ctx):
             F = np.array([0.05, 0.1, 0.2])
             D = np.array([225.0, 247.5, 270.0, 292.5, 315.0])
             e = np.array([[rng.randint(1, 9000) for _ in D] for _ in F]) * 1e-3
+            # zero bins and missing bins (one frequency, or the whole spectrum): the text format prints nan, the reader returns it
+            if k % 3 == 1:
+                e[rng.randrange(len(F)), rng.randrange(len(D))] = 0.0
+            elif k % 3 == 2:
+                if k % 2:
+                    e[rng.randrange(len(F)), :] = np.nan
+                else:
+                    e[:, :] = np.nan
             ds1 = xr.Dataset({"efth": (("freq", "dir"), e)}, coords={"freq": F, "dir": D})
             p = os.path.join(tmp, "f%d.txt" % k)
             ctx.case(("funwave", k), True)
@@ -335,7 +343,7 @@ def run(ctx):
                 back = read_funwave(p)
                 b = back.efth.sortby("dir").sortby("freq")
                 ok = b.shape == e.shape and np.allclose(b.dir.values, D, atol=1e-3) and np.allclose(b.freq.values, F, atol=1e-6) and \
-                    np.allclose(b.values, e, rtol=2e-3, atol=1e-6)
+                    np.allclose(b.values, e, rtol=2e-3, atol=1e-6, equal_nan=True) and np.array_equal(np.isnan(b.values), np.isnan(e))
                 if ok:
                     ctx.replayed()
                 else:
